@@ -1,4 +1,5 @@
 import Dnp3.Model.OutstationTrace
+import Dnp3.Proofs.Database
 /-!
 # C12 — outstation replies are well-formed, correlated, bounded, and report rejections
 
@@ -1547,6 +1548,10 @@ theorem Good.step {cfg : OCfg} (hdb : DbContract) (env : OEnv) {s : OState} (h :
     fun a ha => GoodRes.settle hdb _ _ (GoodRes.dispatch hdb ha)
   unfold Outstation.step
   split
+  · -- the task is dead: nothing but the script changes
+    rw [if_pos rfl]; cases inp <;> exact h0
+  rw [if_neg Bool.false_ne_true]
+  split
   · exact h0
   · -- rx
     splits
@@ -2983,22 +2988,22 @@ Everything below this line EVALUATES the current database stub (`Db.*`); it is h
 hypotheses of the theorems above are satisfiable by non-trivial states, and must be re-checked
 (not re-proved) when the database model lands. -/
 
-/-- the stub database satisfies the contract (unfolds the stub — instance only) -/
-theorem stubContract : DbContract :=
-  ⟨fun _ _ => by simp [Db.writeResponse], fun _ _ _ _ _ => by simp [Db.writeUnsolicited]⟩
+/-- the database model satisfies the contract (`Dnp3.Proofs.Database`) -/
+theorem dbContract : DbContract :=
+  ⟨Dnp3.DbProofs.response_within_capacity, Dnp3.DbProofs.unsolicited_within_capacity⟩
 
 def cfgU : OCfg := { unsolicited := true, sol := 249, unsol := 249 }
 def master1 : Frag := ⟨0, 1, none, [0xC1, 1, 60, 1, 6]⟩
 
 -- `Inv` (hypothesis of `step_preserves_inv`, `step_tx_shape`, `run_tx_shape`): the state after construction,
 -- here with unsolicited responses enabled (so the state is inside a NULL-unsolicited confirm wait)
-example : Inv cfgU (Outstation.start cfgU 0).1 := start_inv stubContract 0 (by decide) (by decide)
+example : Inv cfgU (Outstation.start cfgU 0).1 := start_inv dbContract 0 (by decide) (by decide)
 example : (Outstation.start cfgU 0).2.length = 2 := by decide +kernel
 example : txFrags (Outstation.start cfgU 0).2 = [(1, [0xF0, 0x82, 0x80, 0x00])] := by decide +kernel
 
 -- … and a state reached by a READ from the master while that wait is pending (deferred read stored)
 example : Inv cfgU (Outstation.step {} (Outstation.start cfgU 0).1 (.rx 1 1024 [0xC1, 1, 60, 1, 6])).1 :=
-  step_preserves_inv stubContract {} (start_inv stubContract 0 (by decide) (by decide)) _
+  step_preserves_inv dbContract {} (start_inv dbContract 0 (by decide) (by decide)) _
 
 -- `step_tx_shape` instance: class-0 READ answered from idle
 example : txFrags (Outstation.step {} (Outstation.start {} 0).1 (.rx 1 1024 [0xC1, 1, 60, 1, 6])).2 =
